@@ -92,6 +92,37 @@ Section Safe.
     | PRoot :: l => forallb (safe_step 200) l
     | l => forallb (safe_step 200) l && first_ok l
     end.
+
+  (* ---- the same conditions without the shape: "nothing needs quoting or escaping, literals typed as the parser types
+     them, depth below the printer model's fuel". PathImage.leaf_shape_safe: on a path of the parser's shape (every
+     accepted path has it: PathImage.parse_image) leaf_path is the same as safe_path. *)
+  Definition leaf_inner (p : path) : bool :=
+    match p with
+    | PDotField s | PColonField s => safe_nameb s
+    | PObjectField s => safe_quotedb s
+    | PIndices l => forallb safe_aindex l
+    | _ => true
+    end.
+  Definition leaf_operand (e : expr) : bool :=
+    match e with EPaths l => forallb leaf_inner l | EValue v => safe_value v | _ => true end.
+  Fixpoint leaf_step (fuel : nat) (p : path) : bool :=
+    match fuel with O => false | S f =>
+    match p with PFilter e => leaf_expr f e | _ => leaf_inner p end end
+  with leaf_expr (fuel : nat) (e : expr) : bool :=
+    match fuel with O => false | S f =>
+    match e with
+    | EBin op l r => if is_cmp op then (2 <=? f)%nat && leaf_operand l && leaf_operand r else leaf_expr f l && leaf_expr f r
+    | EArithB _ l r => (2 <=? f)%nat && leaf_operand l && leaf_operand r
+    | EArithU _ x => (2 <=? f)%nat && is_paths x && leaf_operand x
+    | EExists l => (1 <=? f)%nat && forallb (leaf_step f) l
+    | _ => true
+    end end.
+  Definition leaf_path (ps : list path) : bool :=
+    match ps with
+    | [PPredicate e] => leaf_expr 199 e
+    | PRoot :: l => forallb (leaf_step 200) l
+    | l => forallb (leaf_step 200) l && first_ok l
+    end.
 End Safe.
 
 Definition no_floats : N -> bool := fun _ => false.
